@@ -23,6 +23,9 @@ const (
 	bvRootKnown  = 2 // header.Root replaced by the parent's root    -> ValidateState fails; the claimed root is a state that exists
 	bvRootAbsent = 3 // header.Root replaced by a root nobody has    -> ValidateState fails
 	bvGasUsed    = 4 // header.GasUsed off by one                    -> ValidateState fails
+	bvTxHashOnly = 5 // header.TxHash replaced, body and every other root consistent -> only ValidateBody's tx-root test fails
+	bvRcptRoot   = 6 // header.ReceiptHash replaced                  -> ValidateState fails
+	bvBloom      = 7 // header.Bloom with one bit flipped            -> ValidateState fails
 )
 
 // BlockSpec describes one block of a tree; Parent is an index into the tree
@@ -63,7 +66,8 @@ type world struct {
 	rootID               map[common.Hash]uint64
 	txID                 map[common.Hash]uint64
 	valRoot, stakingRoot common.Hash
-	deleted              int // header/body/receipt deletions seen in the current import
+	deleted              int             // header/body/receipt deletions seen in the current import
+	executed             map[uint64]bool // blocks a head switch was made for (imported as head)
 }
 
 func (w *world) rid(r common.Hash) uint64 {
@@ -118,7 +122,7 @@ func (w *world) child(parent *types.Block, txs []int, salt int) *types.Block {
 
 func newWorld(specs []BlockSpec) *world {
 	w := &world{specs: specs, gendb: youdb.NewMemDatabase(), flags: map[common.Hash]int{},
-		blockID: map[common.Hash]uint64{}, byID: map[uint64]*types.Block{}, rootID: map[common.Hash]uint64{}, txID: map[common.Hash]uint64{}}
+		blockID: map[common.Hash]uint64{}, byID: map[uint64]*types.Block{}, executed: map[uint64]bool{1: true}, rootID: map[common.Hash]uint64{}, txID: map[common.Hash]uint64{}}
 	w.genesis = gspec().MustCommit(w.gendb)
 	w.valRoot, w.stakingRoot = w.genesis.ValRoot(), w.genesis.StakingRoot()
 	w.proc = core.NewStateProcessor(nil, solo.NewSolo())
@@ -160,6 +164,15 @@ func newWorld(specs []BlockSpec) *world {
 			b = types.NewBlockWithHeader(h).WithBody(g.Body())
 		case bvGasUsed:
 			h.GasUsed++
+			b = types.NewBlockWithHeader(h).WithBody(g.Body())
+		case bvTxHashOnly:
+			h.TxHash = common.BytesToHash([]byte{0xc1, 0x15, byte(i)})
+			b = types.NewBlockWithHeader(h).WithBody(g.Body())
+		case bvRcptRoot:
+			h.ReceiptHash = common.BytesToHash([]byte{0xc1, 0x16, byte(i)})
+			b = types.NewBlockWithHeader(h).WithBody(g.Body())
+		case bvBloom:
+			h.Bloom[0] ^= 1
 			b = types.NewBlockWithHeader(h).WithBody(g.Body())
 		}
 		w.blocks = append(w.blocks, b)
